@@ -31,7 +31,6 @@ PROOF_FILES = ["Proofs/LegalCheckSound.v", "Proofs/LegalTables.v", "Proofs/Label
 APP_ONLY_GLOBALS = ["Round", "LatestTimestamp", "CurrentApplicationID", "CreatorAddress", "CurrentApplicationAddress",
                     "CallerApplicationID", "CallerApplicationAddress"]
 EFFECT_FIELDS = ["Logs", "NumLogs", "CreatedAssetID", "CreatedApplicationID", "LastLog"]
-TXNA_OPS = ("txna", "gtxna", "gtxnsa", "itxna", "gitxna")
 
 
 # ---------------------------------------------------------------------------------------------
@@ -74,12 +73,6 @@ def classify(res, teal, version, app):
         return None
     kind, detail = res[1], res[3]
     m = re.fullmatch(r"(\S+) (\d+)", detail)
-    if kind == "imm-range" and m and m.group(1) in TXNA_OPS and int(m.group(2)) > 255:
-        # the out-of-range immediate must be the ARRAY INDEX (last immediate) of a txna-family line
-        pat = re.compile(r"^(%s)((?: \S+)*) (\d+)$" % "|".join(TXNA_OPS), re.M)
-        hit = [mm for mm in pat.finditer(teal) if int(mm.group(3)) > 255 and not re.search(r" (\d{3,})", mm.group(2))]
-        if hit:
-            return ("txn-array-index-over-255", pat.sub(lambda mm: mm.group(0) if int(mm.group(3)) <= 255 else "%s%s 0" % (mm.group(1), mm.group(2)), teal), version)
     if kind == "imm-range" and m and m.group(1) in ("intc", "bytec") and int(m.group(2)) > 255:
         blk = re.search(r"^%sblock (.*)$" % m.group(1), teal, re.M)
         if blk and len(blk.group(1).split(" //")[0].split()) > 256:
@@ -94,8 +87,6 @@ def classify(res, teal, version, app):
             t = re.sub(r"^((?:txn|gtxn \d+|gtxns)) LastLog$", r"\1 Note", t, flags=re.M)
             t = re.sub(r"^((?:txna|gtxna \d+|gtxnsa|txnas|gtxnas \d+|gtxnsas)) Logs", r"\1 ApplicationArgs", t, flags=re.M)
             return ("app-only-field-in-signature-mode", t, version)
-    if kind == "field-version" and detail == "asset_params_get AssetCreator" and version < 5:
-        return ("asset-creator-below-v5", re.sub(r"^asset_params_get AssetCreator$", "asset_params_get AssetManager", teal, flags=re.M), version)
     if kind == "field-unknown" and detail == "vrf_verify VrfChainlink":
         return ("vrf-chainlink-not-an-avm-field", re.sub(r"^vrf_verify VrfChainlink$", "vrf_verify VrfAlgorand", teal, flags=re.M), version)
     if kind in ("itxn-field-not-settable", "itxn-field-version", "field-version") and detail.startswith("itxn_field "):
@@ -107,14 +98,11 @@ def classify(res, teal, version, app):
 
 
 FINDING_TEXT = {
-    "txn-array-index-over-255": "a constant transaction-array index above 255 is emitted as a txna-family immediate that does not fit one byte (e.g. Txn.application_args[300] -> txna ApplicationArgs 300)",
     "const-block-index-over-255": "with assembleConstants=True and more than 256 distinct repeated constants the block index exceeds one byte (intc 256 / bytec 256)",
     "app-only-field-in-signature-mode": "a field the AVM offers in Application mode only (global Round/LatestTimestamp/CurrentApplicationID/CreatorAddress/..., txn Logs/NumLogs/Created*ID/LastLog) compiles in Signature mode: PyTeal has no mode column for fields",
-    "asset-creator-below-v5": "AssetParam.creator compiles below version 5 (asset_params_get AssetCreator exists from v5): the field carries no version",
     "vrf-chainlink-not-an-avm-field": "VrfVerify.chainlink emits vrf_verify VrfChainlink, which is not a field of the AVM (only VrfAlgorand)",
     "itxn-field-not-settable": "InnerTxnBuilder.SetField accepts any TxnField of the program version: itxn_field is emitted for fields the AVM never lets an inner transaction set (FirstValid, TxID, NumAppArgs, ...) or only from a later version (Note, RekeyTo, application fields: v6), and the field's own minimum version is not checked either (itxn_field StateProofPK at v5)",
     "loop-below-v4": "While/For compile at versions 2 and 3 although backward branches exist only from version 4",
-    "subroutine-name-line-feed": "a subroutine name containing a line feed is written verbatim into the `// name` line, so the rest of the name becomes TEAL source lines (labels, instructions, garbage)",
 }
 
 
@@ -127,6 +115,7 @@ class Session:
         self.known_hits = {}
         self.uncovered = {}
         self.violations = 0
+        self.per_kind = {}
         self.accepted = 0
 
     def bump(self, d, k, n=1):
@@ -166,7 +155,10 @@ class Session:
                 continue
             self.bump(self.kinds, res[1])
             self.violations += 1
-            if self.violations <= 25:
+            vk = (res[1], str(res[3]).split(" ")[0], case.get("family"))
+            self.bump(self.per_kind, vk)
+            # replay files for at most 3 cases per (kind, op, family), so that one frequent defect does not crowd out another
+            if self.per_kind[vk] <= 3 and len(ck.violations) < 60:
                 ck.violation("PyTeal emitted TEAL that is not legal for version %d %s mode: %s at instruction %s (%s) [%s]" % (
                     version, "Application" if app else "Signature", res[1], res[2], res[3], case.get("name", case.get("family"))),
                     {"kind": "illegal-output", "case": case, "version": version, "mode": "app" if app else "sig",
@@ -293,14 +285,6 @@ def fam_subs(ses, pt, rng, thorough, shard=0, nshards=1):
     ses.ck.coverage["subs_constructor_histogram"] = hist
 
 
-def newline_known(names):
-    def f(res, text, ver):
-        if any("\n" in n for n in names):
-            return ("subroutine-name-line-feed", None, ver)
-        return None
-    return f
-
-
 def fam_names(ses, pt, rng, thorough, shard=0, nshards=1):
     n = 400 if thorough else 90
     for i in range(n):
@@ -313,12 +297,9 @@ def fam_names(ses, pt, rng, thorough, shard=0, nshards=1):
     for i in range(30 if thorough else 10):
         seed = rng.randrange(1 << 40)
         version = rng.choice([4, 6, 8])
-        names = []
-        def thunk():
-            e, m = G.gen_names_program(pt, seed, version, True, newline=True)
-            names[:] = m["names"]
-            return e
-        ses.compile_and_check(thunk, version, True, {"family": "names-newline", "key": seed}, extra_known=lambda r, t, v: newline_known(names)(r, t, v))
+        # regression family for the repaired finding subroutine-name-line-feed (/repo 3627216): a rejection is a violation
+        ses.compile_and_check(lambda: G.gen_names_program(pt, seed, version, True, newline=True)[0], version, True,
+                              {"family": "names-newline", "key": seed})
 
 
 def fam_router(ses, pt, rng, thorough, shard=0, nshards=1):
